@@ -68,7 +68,7 @@ Definition merge_fuel (total new_map : brel) : nat :=
   let n := (2 * length (total ++ new_map))%nat in S (S (n * n)).
 
 (* merge_delta_to_total_new_to_delta for TrRelIndCommon (anti_reflexive as a parameter; the code
-   hard-wires `true` in make_new / default) *)
+   creates every relation with `false` in make_new / default since commit 2cd049f, `true` before) *)
 Definition bmerge (arefl : bool) (st : bstate) : option bstate :=
   let total1 := b_total st ++ b_delta st in
   match inner_loop (merge_fuel total1 (b_new st)) arefl total1 (b_new st) (b_new st) [] with
@@ -114,7 +114,8 @@ Definition observe_brel (n : nat) (r : brel) : list Z :=
   bobs n (v_full_contains n r) ++ bobs n (v_full_get n r) ++ bobs n (v_full_iter r) ++ [Z.b2z (isnil r)]
   ++ bobs n (v_none r) ++ bobs n (v_none r) ++ [0]
   ++ bobs n (v_i0_get n r) ++ bobs n (v_i0_iter r) ++ [Z.b2z (isnil r)]
-  ++ bobs n (v_i1_get n r) ++ bobs n (v_i1_iter r) ++ [Z.b2z (isnil r)].
+  ++ bobs n (v_i1_get n r) ++ bobs n (v_i1_iter r) ++ [Z.b2z (isnil r)]
+  ++ [0; 0; 0; 0].     (* len_estimate of the four views: 1 = the call panics; none does *)
 
 Definition observe_bstate (n : nat) (st : bstate) : list Z :=
   observe_brel n (b_delta st) ++ observe_brel n (b_total st).
@@ -137,8 +138,9 @@ Fixpoint btrace (arefl : bool) (n : nat) (st : bstate) (ops : list bop) (i : Z) 
   | BRestart :: rest => let st' := brestart st in btrace arefl n st' rest (i + 1) (observe_bstate n st' :: acc)
   end.
 
-(* the provider as shipped: anti_reflexive = true (TrRelIndCommon::default / make_new) *)
-Definition shipped_arefl : bool := true.
+(* the provider as shipped: anti_reflexive = false (TrRelIndCommon::default / make_new since commit 2cd049f;
+   `true` before that commit: pairs (x,x) implied by cycles were dropped) *)
+Definition shipped_arefl : bool := false.
 Definition run_bin (n : nat) (ops : list bop) : trace := btrace shipped_arefl n bempty ops 0 [].
 
 (* ------------------------------------------------------------------ ternary form *)
@@ -203,7 +205,16 @@ Fixpoint tmerge_new_keys (arefl : bool) (nm : kmap) (tm ndm : kmap) : option (km
       end
   end.
 
-Definition tmerge (arefl has_rev : bool) (st : tstate) : option tstate :=
+(* delta's reverse maps after the merge (commit 0ce9ae6): rebuilt from the NEW delta map —
+   for (k, trrel) in delta.map: for x1 in trrel.map.keys(): reverse_map1[x1].insert(k)   (x2 over reverse_map.keys()) *)
+Definition rebuild1 (m : kmap) : list pair :=
+  flat_map (fun kc => map (fun x => (x, fst kc)) (zdedup (map fst (snd kc)))) m.
+Definition rebuild2 (m : kmap) : list pair :=
+  flat_map (fun kc => map (fun y => (y, fst kc)) (zdedup (map snd (snd kc)))) m.
+
+(* rebuild = true: the code since commit 0ce9ae6.  rebuild = false: the behaviour before it (delta's reverse
+   maps were simply new's reverse maps: only the column values of the tuples inserted in the last round). *)
+Definition tmerge_gen (arefl has_rev rebuild : bool) (st : tstate) : option tstate :=
   match tmerge_delta_keys arefl (t_map (t_delta st)) (t_map (t_new st)) (t_map (t_total st)) [] with
   | None => None
   | Some (nm, tm, ndm) =>
@@ -211,12 +222,16 @@ Definition tmerge (arefl has_rev : bool) (st : tstate) : option tstate :=
       | None => None
       | Some (tm', ndm') =>
           Some {| t_new := tver_empty;
-                  t_delta := {| t_map := ndm'; t_rev1 := t_rev1 (t_new st); t_rev2 := t_rev2 (t_new st) |};
+                  t_delta := {| t_map := ndm';
+                                t_rev1 := if has_rev then (if rebuild then rebuild1 ndm' else t_rev1 (t_new st)) else [];
+                                t_rev2 := if has_rev then (if rebuild then rebuild2 ndm' else t_rev2 (t_new st)) else [] |};
                   t_total := {| t_map := tm';
                                 t_rev1 := if has_rev then punion (t_rev1 (t_delta st)) (t_rev1 (t_total st)) else [];
                                 t_rev2 := if has_rev then punion (t_rev2 (t_delta st)) (t_rev2 (t_total st)) else [] |} |}
       end
   end.
+
+Definition tmerge (arefl has_rev : bool) (st : tstate) : option tstate := tmerge_gen arefl has_rev true st.
 
 Definition triple := (Z * Z * Z)%type.
 Definition tcontains (t : triple) (v : tver) : bool :=
@@ -305,6 +320,10 @@ Definition tv_i12_get (n : nat) (v : tver) := opt_concat (map (tv_i12_get1 v) (g
 Definition tv_i12_iter (v : tver) :=
   opt_concat (map (tv_i12_get1 v) (list_prod (zdedup (map fst (t_rev1 v))) (zdedup (map fst (t_rev2 v))))).
 
+(* TrRel2Ind1_2::len_estimate divides by ((map.len() as f32).sqrt() as usize).max(1) since commit 72c0385 (before:
+   no .max(1), a division by zero on an empty per-key map).  1 = the call panics: never. *)
+Definition i12_len_estimate_panics (v : tver) : bool := false.
+
 Definition tcell (n : nat) (t : triple) : Z :=
   let '(k, x, y) := t in (k * Z.of_nat n + x) * Z.of_nat n + y.
 Definition tobs (n : nat) (l : list triple) : list Z := [mask_of (map (tcell n) l); Z.of_nat (length l)].
@@ -314,7 +333,8 @@ Definition observe_tver_fwd (keys n : nat) (v : tver) : list Z :=
   ++ tobs n (tall v) ++ tobs n (tall v) ++ [0]
   ++ tobs n (tv_i0_get keys v) ++ tobs n (tall v) ++ [Z.b2z (isnil (t_map v))]
   ++ tobs n (tv_i01_get keys n v) ++ tobs n (tv_i01_iter v) ++ [Z.b2z (isnil (t_map v))]
-  ++ tobs n (tv_i02_get keys n v) ++ tobs n (tv_i02_iter v) ++ [Z.b2z (isnil (t_map v))].
+  ++ tobs n (tv_i02_get keys n v) ++ tobs n (tv_i02_iter v) ++ [Z.b2z (isnil (t_map v))]
+  ++ [0; 0; 0; 0; 0].  (* len_estimate of full / none / 0 / 0_1 / 0_2 never panics *)
 
 Definition opt_app (a : option (list Z)) (b : option (list Z)) : option (list Z) :=
   match a, b with Some x, Some y => Some (x ++ y) | _, _ => None end.
@@ -323,7 +343,7 @@ Definition opt_tobs (n : nat) (l : option (list triple)) : option (list Z) := op
 Definition observe_tver_rev (n : nat) (v : tver) : option (list Z) :=
   opt_app (opt_tobs n (tv_i1_get n v)) (opt_app (opt_tobs n (tv_i1_iter v)) (opt_app (Some [Z.b2z (isnil (t_rev1 v))])
   (opt_app (opt_tobs n (tv_i2_get n v)) (opt_app (opt_tobs n (tv_i2_iter v)) (opt_app (Some [Z.b2z (isnil (t_rev2 v))])
-  (opt_app (opt_tobs n (tv_i12_get n v)) (opt_app (opt_tobs n (tv_i12_iter v)) (Some [0])))))))).
+  (opt_app (opt_tobs n (tv_i12_get n v)) (opt_app (opt_tobs n (tv_i12_iter v)) (Some [0; 0; 0; Z.b2z (i12_len_estimate_panics v)])))))))).
 
 Definition observe_tver (has_rev : bool) (keys n : nat) (v : tver) : option (list Z) :=
   if has_rev then opt_app (Some (observe_tver_fwd keys n v)) (observe_tver_rev n v)
